@@ -244,6 +244,42 @@ func runC07(c *explore.Ctx) {
 		}
 		return !c.Expired()
 	})
+	// DV-LONG: documents with 1200 terms each in a doc-value field (a value of > 16 383 bytes), next
+	// to short ones, in a field with a high id
+	if c.MineIdx("DV-LONG", 0) {
+		c.Eval()
+		c.Nontrivial()
+		var batch []model.Doc
+		for d := 0; d < 4; d++ {
+			doc := model.Doc{}
+			for f := 0; f < 130; f++ { // filler fields so that the doc-value field gets a high id
+				if d == 0 {
+					doc = append(doc, model.Field{N: fmt.Sprintf("e%03d", f), Len: 1, Terms: []model.Term{{T: "q", Freq: 1}}})
+				}
+			}
+			var ts []model.Term
+			nt := 1200
+			if d%2 == 1 {
+				nt = 2
+			}
+			for t := 0; t < nt; t++ {
+				ts = append(ts, model.Term{T: fmt.Sprintf("term-%04d-of-doc-%d", t, d), Freq: 1})
+			}
+			doc = append(doc, model.Field{N: "zdv", Len: len(ts), Terms: ts, DV: true})
+			batch = append(batch, doc)
+		}
+		ls := model.Build(batch)
+		if seg, err := build(batch, 1025); err != nil {
+			c.Violate("DV-LONG", 0, sigOf("C07", "build", "error: "+err.Error()), err.Error(), "DV-LONG")
+		} else {
+			for _, o := range orders([]uint64{0, 1, 2, 3}, 3) {
+				if bad, _ := runDVSeq(seg, ls, []string{"zdv", "e000"}, o); bad != "" {
+					c.Violate("DV-LONG", 0, sigOf("C07", "long", bad), bad[:200], "DV-LONG")
+					break
+				}
+			}
+		}
+	}
 	// inconsistent per-segment doc-value flags: per-source oracle
 	{
 		scope := "DV-INCONSISTENT"
